@@ -15,15 +15,14 @@ def python_evaluate(s: str) -> int:
     """
     try:
         val = eval(s)
-        if isinstance(val, int):
-            return val
-        else:
-            raise NotAnIntegerException(s)
     except SyntaxError as ex:
         raise NotAnIntegerException(s, ex.msg)
-    except ValueError as ex:
+    except Exception as ex:
+        # Any other error from evaluating the expression
+        # (ValueError, TypeError, NameError, ZeroDivisionError, OverflowError, IndexError, ...)
         raise NotAnIntegerException(s, str(ex))
-    except TypeError as ex:
-        raise NotAnIntegerException(s, str(ex))
-    except NameError as ex:
-        raise NotAnIntegerException(s, str(ex))
+
+    if isinstance(val, int):
+        return val
+    else:
+        raise NotAnIntegerException(s)
